@@ -7,7 +7,7 @@ import proto, gen, implutil
 
 THEOREMS = ['C18_limit_rule', 'C18_limit_sublist', 'C18_limit_membership', 'C18_limit_outside', 'C18_limit_reset', 'C18_limit_signal', 'C18_split_drop', 'C18_flatten', 'C18_flatten_labels']
 RULE = ("cycle tables of generated signals, both centrings x start/stop in {None, exactly 0, random, exactly on a cycle boundary (last/next side extremum / fs), windows containing no cycle} x "
-        "reset_indices x row labels 0..n-1 / repeated (flattened channels) / offset; limit_signal on the sample grid with the same limits, time axis starting at 0 or before 0; split_samples_df / drop_samples_df on the same tables; flatten_dfs on 1-D and 2-D lists of tables "
+        "reset_indices x row labels 0..n-1 / repeated (flattened channels) / offset; limit_signal on the sample grid with the same limits, time axis starting at 0 or before 0; split_samples_df / drop_samples_df on the same tables (half of them with user-added columns whose names only contain 'sample_', object / boolean columns, another column order); flatten_dfs on 1-D and 2-D lists of tables "
         "with labels (and mismatching label counts; default and custom column_name); judge: Lean specifications limitSpec / limitSignalSpec, column partition, order and labels; "
         "distinct = distinct (table, limits, flags); non-trivial = a strict non-empty subset of the rows / samples is kept")
 ASSUMPTIONS = ["the window limits are shipped as the equivalent sample thresholds (smallest sample with s/fs >= start, largest with s/fs <= stop, computed in float64 as the implementation compares); the model is about the selection and the shift",
@@ -163,6 +163,13 @@ def evaluate(ctx, cases):
             df, sig, fs = _get(c['seed'], c['center'])
             if c['method'] == 'amp':
                 df = implutil.quiet(compute_features, sig, fs, (5.6, 10.4), center_extrema=c['center'], burst_method='amp', threshold_kwargs={})
+            if c['seed'] % 2 == 0:
+                # columns a user added: names that merely CONTAIN 'sample' / 'sample_' are not sample columns (only the sample_ PREFIX is), object-typed and
+                # boolean columns keep their values and type
+                df = df.copy(); n_ = len(df)
+                df['resample_factor'] = np.arange(n_) * 0.5; df['n_subsample_pts'] = np.arange(n_); df['samples'] = np.arange(n_)[::-1]
+                df['subject'] = ['s%d' % (i % 3) for i in range(n_)]; df['is_sample_ok'] = np.arange(n_) % 2 == 0
+                if c['seed'] % 4 == 0: df = df[sorted(df.columns)]          # (columns in another order)
             orig = df.copy()
             d = drop_samples_df(df.copy())
             f, s = split_samples_df(df.copy())
